@@ -4,8 +4,8 @@
    Definitions only; must build even when a proof breaks. *)
 From Coq Require Import List String Ascii NArith Bool.
 Import ListNotations.
-From GMQ Require Import Base.Bytes Codec.Desc Codec.Prim Codec.Value Codec.MethodCodec Codec.Header Codec.Frame Codec.Records Codec.Codec.
-From GMQ Require Import Codec.gen.MethodsGen Codec.gen.TagsGen Codec.gen.ConstGen.
+From GMQ Require Import Base.Bytes Codec.Desc Codec.Prim Codec.Value Codec.MethodCodec Codec.Header Codec.Frame Codec.Records Codec.SpecCheck Codec.Grammar Codec.Codec.
+From GMQ Require Import Codec.gen.MethodsGen Codec.gen.TagsGen Codec.gen.ConstGen Codec.gen.SpecGen.
 Open Scope N_scope.
 
 (* ---- hex strings ---- *)
@@ -138,44 +138,63 @@ Definition lift {A} (f : A -> cval) (r : result (A * bytes)) : result (cval * by
   | Err => Err | Panic => Panic | Alloc n => Alloc n | Fuel => Fuel
   end.
 
-Definition decode_any (k : kind) (d : dialect) (bs : bytes) : result (cval * bytes) :=
-  match k with
-  | KdTable => lift CT (decode_table d bs)
-  | KdMethod => lift (fun x => CM (fst x) (snd x))
-                     (match decode_method_frame d bs with
-                      | Ok (n, vs, r) => Ok ((n, vs), r)
-                      | Err => Err | Panic => Panic | Alloc n => Alloc n | Fuel => Fuel end)
-  | KdHeader => lift CH (decode_header d bs)
-  | KdFrame => lift CF (decode_frame bs)
-  | KdMessage => lift CMsg (decode_message d bs)
-  | KdQueue => lift CQ (dec_queue bs)
-  | KdExchange => lift CE (dec_exchange bs)
-  | KdBinding => lift CB (decode_binding d bs)
-  | KdShortstr => lift CS (dec_shortstr bs)
-  | KdLongstr => lift CS (decode_longstr bs)
-  end.
+(* the tables an instance of the model is built from *)
+Record tables := {
+  t_rd : dialect -> list reader_row; t_wr : dialect -> list writer_row;
+  t_methods : list method_desc; t_dispatch : list (N * N * string);
+  t_pf : list (string * fkind); t_pr : list prop_row; t_pw : list prop_row }.
 
-Definition encode_any (d : dialect) (c : cval) : option bytes :=
-  match c with
-  | CT t => encode_table d t
-  | CM n vs => match find_method all_methods n with Some m => encode_method_frame d m vs | None => None end
-  | CH h => encode_header d h
-  | CF f => Some (encode_frame f)
-  | CMsg m => encode_message d m
-  | CQ q => Some (enc_queue q)
-  | CE e => Some (enc_exchange e)
-  | CB b => encode_binding d b
-  | CS s => None   (* decided by the kind: see enc_case_ok *)
-  end.
+(* what the code does (regenerated from /repo) *)
+Definition T_code : tables :=
+  {| t_rd := rd_gen; t_wr := wr_gen; t_methods := all_methods; t_dispatch := read_dispatch;
+     t_pf := props_fields; t_pr := props_read; t_pw := props_write |}.
+(* what the specifications say (protocol XML, Codec/Grammar.v): used for the failing-input search *)
+Definition T_grammar : tables :=
+  {| t_rd := g_rd; t_wr := g_wr; t_methods := map spec_desc spec_methods; t_dispatch := spec_dispatch spec_methods;
+     t_pf := spec_basic_properties; t_pr := spec_prop_rows spec_basic_properties 15; t_pw := spec_prop_rows spec_basic_properties 15 |}.
+
+Section Instance.
+  Variable T : tables.
+
+  Definition decode_any (k : kind) (d : dialect) (bs : bytes) : result (cval * bytes) :=
+    match k with
+    | KdTable => lift CT (dec_table longstr_alloc (t_rd T) d bs)
+    | KdMethod => lift (fun x => CM (fst x) (snd x))
+                       (match dec_method_frame longstr_alloc (t_rd T) d (t_methods T) (t_dispatch T) bs with
+                        | Ok (n, vs, r) => Ok ((n, vs), r)
+                        | Err => Err | Panic => Panic | Alloc n => Alloc n | Fuel => Fuel end)
+    | KdHeader => lift CH (dec_header longstr_alloc (t_rd T) d (t_pf T) (t_pr T) bs)
+    | KdFrame => lift CF (decode_frame bs)
+    | KdMessage => lift CMsg (dec_message longstr_alloc frame_alloc c_FrameEnd (t_rd T) d (t_pf T) (t_pr T) bs)
+    | KdQueue => lift CQ (dec_queue bs)
+    | KdExchange => lift CE (dec_exchange bs)
+    | KdBinding => lift CB (dec_binding longstr_alloc (t_rd T) d bs)
+    | KdShortstr => lift CS (dec_shortstr bs)
+    | KdLongstr => lift CS (decode_longstr bs)
+    end.
+
+  Definition encode_any (d : dialect) (c : cval) : option bytes :=
+    match c with
+    | CT t => enc_table (t_wr T) d t
+    | CM n vs => match find_method (t_methods T) n with Some m => enc_method_frame (t_wr T) d m vs | None => None end
+    | CH h => enc_header (t_wr T) d (t_pf T) (t_pw T) h
+    | CF f => Some (encode_frame f)
+    | CMsg m => enc_message c_FrameEnd (t_wr T) d (t_pf T) (t_pw T) m
+    | CQ q => Some (enc_queue q)
+    | CE e => Some (enc_exchange e)
+    | CB b => enc_binding (t_wr T) d b
+    | CS s => None   (* decided by the kind: see ecase_ok *)
+    end.
+End Instance.
 
 (* ---- cases ---- *)
 (* decode case: what the Go decoder did with these bytes *)
 Inductive dexp := XOk (v : cval) (rest : option N) | XErr | XPanic.
 Definition dcase := (kind * dialect * string * dexp)%type.
 
-Definition dcase_ok (c : dcase) : bool :=
+Definition dcase_ok (T : tables) (c : dcase) : bool :=
   let '(k, d, hx, e) := c in
-  match decode_any k d (H hx), e with
+  match decode_any T k d (H hx), e with
   | Ok (v, r), XOk v' rest =>
     cval_eqb v (canon_cval v') && match rest with Some n => blen r =? n | None => true end
   | Err, XErr => true
@@ -187,22 +206,24 @@ Definition dcase_ok (c : dcase) : bool :=
 (* allocation the model attributes to a case (0 when none) *)
 Definition dcase_alloc (c : dcase) : N :=
   let '(k, d, hx, e) := c in
-  match decode_any k d (H hx) with Alloc n => n | _ => 0 end.
+  match decode_any T_code k d (H hx) with Alloc n => n | _ => 0 end.
 
 (* encode case: the Go encoder's output for this value (None: it returned an error) *)
 Definition ecase := (kind * dialect * cval * option string * bool)%type.
 
 Definition bytes_sum (b : bytes) : N := fold_right N.add 0 b.
 
-Definition ecase_ok (c : ecase) : bool :=
+Definition encode_case (T : tables) (c : ecase) : option bytes :=
   let '(k, d, v, go, exact) := c in
-  let model :=
-      match k, v with
-      | KdShortstr, CS s => Some (enc_shortstr s)
-      | KdLongstr, CS s => Some (enc_longstr s)
-      | _, _ => encode_any d v
-      end in
-  match model, go with
+  match k, v with
+  | KdShortstr, CS s => Some (enc_shortstr s)
+  | KdLongstr, CS s => Some (enc_longstr s)
+  | _, _ => encode_any T d v
+  end.
+
+Definition ecase_ok (T : tables) (c : ecase) : bool :=
+  let '(k, d, v, go, exact) := c in
+  match encode_case T c, go with
   | None, None => true
   | Some m, Some hx =>
     if exact then bytes_eqb m (H hx)
@@ -215,8 +236,11 @@ Fixpoint mismatches_from {A} (ok : A -> bool) (i : nat) (cs : list A) : list nat
   | [] => []
   | c :: t => if ok c then mismatches_from ok (S i) t else i :: mismatches_from ok (S i) t
   end.
-Definition d_mismatches (cs : list dcase) : list nat := mismatches_from dcase_ok 0 cs.
-Definition e_mismatches (cs : list ecase) : list nat := mismatches_from ecase_ok 0 cs.
+Definition d_mismatches (cs : list dcase) : list nat := mismatches_from (dcase_ok T_code) 0 cs.
+Definition e_mismatches (cs : list ecase) : list nat := mismatches_from (ecase_ok T_code) 0 cs.
+(* against the specifications instead of the regenerated tables *)
+Definition d_mismatches_grammar (cs : list dcase) : list nat := mismatches_from (dcase_ok T_grammar) 0 cs.
+Definition e_mismatches_grammar (cs : list ecase) : list nat := mismatches_from (ecase_ok T_grammar) 0 cs.
 Fixpoint allocs_from (i : nat) (cs : list dcase) : list (nat * N) :=
   match cs with
   | [] => []
